@@ -560,6 +560,18 @@ func (d *driver) aioRound(drain bool) error {
 		if n > len(run) {
 			n = len(run)
 		}
+		// the selection of a dispatch cycle is logged against the database it was read from: that
+		// read is executed as a batch of its own (its position among the others is still free)
+		for k := 0; k < n; k++ {
+			if selects(run[k]) {
+				if k == 0 {
+					n = 1
+				} else {
+					n = k
+				}
+				break
+			}
+		}
 		batch := run[:n]
 		run = run[n:]
 		fail := "none"
@@ -578,6 +590,15 @@ func (d *driver) aioRound(drain bool) error {
 		}
 	}
 	return nil
+}
+
+func selects(x *sub) bool {
+	for _, c := range x.sqe.Submission.Store.Transaction.Commands {
+		if c.Kind == t_aio.ReadEnqueueableTasks {
+			return true
+		}
+	}
+	return false
 }
 
 func (d *driver) run(steps int) error {
